@@ -262,7 +262,7 @@ PremergeNode(n, path, into, intoNone) ==
            IF intoNone \/ ~HasPath(into, path) THEN Err("PremergeError", path, path)
            ELSE LET t == At(into, path)
                 IN IF ~IsComposed(t) THEN Err("PremergeError", path, path)
-                   ELSE IF Mut("ClearRemovesKey") THEN [o |-> [t EXCEPT !.ch = <<>>], into |-> RemoveAt(into, path)]
+                   ELSE IF Mut("ClearKeepsContent") THEN [o |-> t, into |-> into]
                    ELSE [o |-> [t EXCEPT !.ch = <<>>], into |-> SetAt(into, path, [t EXCEPT !.ch = <<>>])]
       [] IsComposed(n) -> PremergeKids(n, path, into, intoNone)
       [] OTHER -> [o |-> n, into |-> into]
